@@ -42,7 +42,9 @@ func (l *List) MultiUse(st funcGen.Stack[Value]) (Map, error) {
 			pr := prList[i]
 			go mu.runConsumer(pr, done)
 		}
-		err := run(l.iterable(st))
+		// The distributor asks for the next item before it notices that all consumers
+		// are done; a source that has delivered an error must not be asked again.
+		err := run(endBehindError(l.iterable(st)))
 
 		if err != nil {
 			return EmptyMap, err
